@@ -132,6 +132,7 @@ def make(seed):
     from miasm.core.asmblock import AsmCFG
     st = State()
     st.menu = seed
+    st.seed_idx = SEEDS.index(seed)   # part of the state: 'merge own' builds fresh blocks from the seed's menu
     st.loc_db = LocationDB()
     st.lk = dict((n, st.loc_db.add_location(n)) for n in ALL)
     st.name = dict((v, k) for k, v in st.lk.items())
@@ -365,7 +366,7 @@ def invariant(st):
 
 
 def canon(st):
-    return (tuple((n in st.present, tuple(_bto(st, st.blocks[n]))) for n in NAMES), repr(_observe(st, st.impl)))
+    return (st.seed_idx, tuple((n in st.present, tuple(_bto(st, st.blocks[n]))) for n in NAMES), repr(_observe(st, st.impl)))
 
 
 def outcome(st, ev):
